@@ -12,7 +12,8 @@ THEOREMS = ["C15_unmentioned_provided_runs_default", "C15_delegation_is_direct_c
 CRATE = "deleg15"
 
 RULE = ("clause sets over the delegation inventory (trait D: required r0/r1; provided p_ref(&self), p_mut(&mut self), p_val(self), "
-        "p_rc(Rc<Self>), p_arc(Arc<Self>), p_pin(Pin<&mut Self>) sharing one parametric default body that makes a%4 required calls), written as "
+        "p_rc(Rc<Self>), p_arc(Arc<Self>), p_pin(Pin<&mut Self>) sharing one parametric default body that makes a%4 required calls; and trait T's "
+        "provided m2 (which ALSO has a real function registered at its unmock_with position) and m3), written as "
         "literal builder chains and compiled with the real macros on every run: required methods with counted response chains, ordered sequences or "
         "failing patterns; provided methods unmentioned (implicit fall-through), with applies_default_impl(), or mocked; histories mix direct required "
         "calls with provided calls through every receiver kind (Rc/Arc both as sole owner and with another owner kept), on the original and on clones, "
@@ -56,7 +57,8 @@ def gen_case(rng):
                     ops = [(o[0], o[1] - 2000) if o[0] == "ans" and o[1] >= 2000 else o for o in ops]
                 terms.append({"kind": "call", "mid": mid, "opener": "next" if ordered else rng.choice(["each", "each", "some"]),
                               "pat": {"matcher": mask, "dbg": fresh(), "ops": ops}})
-    provided = rng.sample([14, 15, 16, 17, 18, 19, 24], rng.randint(0, 2))
+    # T::m2 (mid 2) is provided AND has a registered real function (unmock_with entry at its own position); T::m3 is provided only
+    provided = rng.sample([14, 15, 16, 17, 18, 19, 24, 2, 3], rng.randint(0, 2))
     for mid in provided:
         how = rng.choice(["dfl", "dfl", "ret", "partial_mask"])
         if how == "dfl":
@@ -83,7 +85,7 @@ def gen_case(rng):
             if m in D.CONSUMING:
                 live.remove(i)
         else:
-            m = rng.choice(D.PROVIDED_D)
+            m = rng.choice(D.PROVIDED_D + [2, 3, 2])
             evs.append({"base": ("call", i, m, rng.randrange(8))})
             if m in D.CONSUMING:
                 live.remove(i)
@@ -120,7 +122,7 @@ def run(tier, seed):
             if e["base"][0] == "call":
                 m = e["base"][2]
                 dist["call:" + {10: "r0", 11: "r1", 14: "p_ref", 15: "p_mut", 16: "p_val", 17: "p_rc(sole)", 18: "p_arc(sole)", 23: "r_rc(sole)", 27: "p_rc(sole+weak)", 28: "p_arc(sole+weak)", 24: "p_rc2(sole)", 25: "r_rc(kept)", 26: "p_rc2(kept)",
-                                 19: "p_pin", 21: "p_rc(kept)", 22: "p_arc(kept)"}.get(m, str(m))] += 1
+                                 19: "p_pin", 21: "p_rc(kept)", 22: "p_arc(kept)", 2: "T::m2(default+real fn)", 3: "T::m3(default)"}.get(m, str(m))] += 1
                 if m >= 14:
                     dist[f"body-calls={e['base'][3] % 4}"] += 1
     cov = {"obligations": len(obligations) + 1, "discharged": len(obligations) + (0 if bad else 1),
